@@ -289,7 +289,9 @@ ImplPeekGet(t) ==
 ImplPeekRead(t) ==      \* value.lock.TryRLock + asDocumentRevision: a value that is being written (or whose lock is contended) reads as absent
   LET x == val[th[t].v]
       proper == IF x.e \/ x.ldg THEN Nil ELSE x.c
-      busy == \E u \in Threads \ {t} : th[u].v = th[t].v IN
+      \* TryRLock also fails while a writer is merely WAITING for the value lock: the lock counts as contended as long as another
+      \* thread holds this value and has its load / store still ahead (between its getValue and its Load / PStore step)
+      busy == \E u \in Threads \ {t} : th[u].v = th[t].v /\ pc[u] \in {"load", "loadfin", "sbytes", "pcas", "padd", "pstore"} IN
   \E r \in {proper} \cup (IF busy THEN {Nil} ELSE {}) :
     LET thr == [th EXCEPT ![t].res = r] IN
     /\ pc' = FinPc(t, FALSE) /\ out' = FinOut(t, thr, FALSE) /\ UNCHANGED evLock
